@@ -54,7 +54,7 @@ def generate(rng, tier):
                 a = [[[s[0] * m + rng.randrange(3), s[1] * m + 3 + rng.randrange(3)], t, l] for s, t, l in a]
             b = _copy.deepcopy(a)
             rng.shuffle(b)
-            kind = rng.choice(["same", "same", "bound", "track", "label", "extra", "missing"])
+            kind = rng.choice(["same", "same", "bound", "track", "label", "extra", "missing", "swap_ends"])
             if b and kind == "bound":
                 i = rng.randrange(len(b))
                 b[i][0][rng.randrange(2)] += rng.choice([-1, 1]) * (5 if regime == "K4" else 2)
@@ -66,6 +66,14 @@ def generate(rng, tier):
                 b[i][2] = rng.choice([l for l in LABELS + ["q"] if l != b[i][2]])
             elif kind == "extra":
                 b.append([gen.rand_segment(rng, regime, span=14, allow_empty=0.0), "q", rng.choice(labels)])
+            elif kind == "swap_ends":
+                # the same starts and the same ends, paired differently ([0,2],[1,3] against [0,3],[1,2])
+                eps_ = REGIMES[regime]["eps"]
+                pairs = [(i, j) for i in range(len(b)) for j in range(len(b))
+                         if i < j and b[i][0][1] != b[j][0][1] and b[j][0][1] - b[i][0][0] > eps_ and b[i][0][1] - b[j][0][0] > eps_]
+                if pairs:
+                    i, j = rng.choice(pairs)
+                    b[i][0][1], b[j][0][1] = b[j][0][1], b[i][0][1]
             elif b and kind == "missing":
                 b.pop(rng.randrange(len(b)))
             b = _distinct_str(b)
